@@ -42,9 +42,9 @@ ProbeSeqDoc == XE(NM("p", <<"A">>), <<[nm |-> N(<<"z", "-", "z">>), v |-> <<"1",
                     XE(N(<<"_", "e">>), <<>>, <<XT(<<"1">>)>>)>>)      \* (a tag that begins with a character some attribute prefixes consist of: the sequence codec knows no attribute prefix)
 ProbeMap == VM(<<"d", "o", "c">> :> VM((<<"-", "x">> :> VS(<<"1">>)) @@ (<<"@", "y">> :> VS(<<"2">>)) @@ (<<"#", "t", "e", "x", "t">> :> VS(<<"t", "<">>))
                   @@ (<<"_", "t", "e", "x", "t">> :> VS(<<"u">>)) @@ (<<"e">> :> VL(<<VS(<<"a">>), VS(<<>>), VM(<<"-", "k">> :> VS(<<"v">>))>>)) @@ (<<"g">> :> EmptyMap)
-                  @@ (<<"E">> :> VS(<<"w">>)) @@ (<<"-", "X">> :> VS(<<"3">>))))      \* (keys that differ in case only: byte order whatever the key-folding registers hold)
-\* single-character prefixes only (the codec specifications model prefixes as one character or empty)
-CodecDomain(o) == Len(o.attrPrefix) <= 1 /\ o.attrPrefix # o.keyPrefix
+                  @@ (<<"E">> :> VS(<<"w">>)) @@ (<<"-", "X">> :> VS(<<"3">>)) @@ (<<"_", "_", "n">> :> VF(<<"7">>))))     \* (a NUMBER under a key that is an attribute under the prefix "__")      \* (keys that differ in case only: byte order whatever the key-folding registers hold)
+\* (attribute prefixes of any length; key prefixes are one character, the property's quantifier)
+CodecDomain(o) == o.attrPrefix # o.keyPrefix
 DefaultCastRegs(o) == ~o.castInt /\ o.castFloat /\ o.castBool /\ ~o.skipTag
 
 \* probe inputs of the query side (plain-string values of MxjPath)
@@ -78,7 +78,7 @@ UpdResult(o, s) == LET ps == SplitOn(s, o.fieldSep) IN
                             r == UpdateOp(ProbeQMap, Join(ps[1]), nv, <<"a">>, {}) IN [ok |-> TRUE, c |-> r.c, post |-> r.n]
 \* Elements / Attributes of the node "doc" of the leaf probe: keys in byte order, split by the attribute prefix
 StructKeys == <<"#text", "-x", "@y", "_text", "e">>
-IsAttrK(o, k) == o.attrPrefix # "" /\ SubSeq(k, 1, Len(o.attrPrefix)) = o.attrPrefix
+IsAttrK(o, k) == o.attrPrefix # "" /\ Len(k) >= Len(o.attrPrefix) /\ SubSeq(k, 1, Len(o.attrPrefix)) = o.attrPrefix
 StripPfx(o, k) == SubSeq(k, Len(o.attrPrefix) + 1, Len(k))
 \* NewMapJson of {"n":1.50,"s":"x"}: the number as float64, or its text under JsonUseNumber
 JsonProbeResult(o) == VM(("n" :> IF o.jsonUseNumber THEN [t |-> "num", v |-> "1.50"] ELSE VF("1.5")) @@ ("s" :> VS("x")))
